@@ -498,7 +498,7 @@ def fmt(rng, x):
 
 
 def gen_column(rng):
-    kind = rng.choice(['ints', 'ints', 'probs', 'probs', 'reals', 'reals', 'huge', 'tiny', 'zeros', 'empties', 'quoted', 'thresholds',
+    kind = rng.choice(['ints', 'ints', 'probs', 'probs', 'reals', 'reals', 'huge', 'bigint', 'tiny', 'zeros', 'empties', 'quoted', 'thresholds',
                        'majority', 'majority', 'nanbound', 'nanbound', 'constant', 'special'])
     n = rng.choice([1, 2, 3, 4, 5, 5, 8, 10, 12, 20, 20, 25, 40])
     if kind == 'ints':
@@ -512,6 +512,15 @@ def gen_column(rng):
     elif kind == 'huge':
         cells = [rng.choice(['1e300', '1.7976931348623157e308', '-1e300', '9007199254740993', '1e18', '123456789012345678901234567890',
                              '-1e155', '1e155', fmt(rng, rng.randint(0, 100))]) for _ in range(n)]
+    elif kind == 'bigint':
+        # integer literals only (a parser may keep them as machine integers), some beyond 2^53 / 2^63: counters, ids, ns timestamps
+        base = rng.choice([4_000_000_000, 1727654400000000000, 2 ** 53, 2 ** 62, 3_037_000_500])
+        step = rng.choice([1, 17, 1000000007])
+        cells = [str(base + i * step) for i in range(n)]
+        if rng.random() < 0.5 and n > 1:
+            cells[rng.randrange(n)] = str(rng.choice([2 ** 53 + 1, 2 ** 63 - 1, 2 ** 63, 2 ** 64 + 5, -2 ** 53 - 1, 9007199254740993]))
+        if rng.random() < 0.3:
+            cells = [c if rng.random() < 0.7 else str(rng.randint(0, 50)) for c in cells]
     elif kind == 'tiny':
         cells = [rng.choice(['1e-320', '5e-324', '-1e-300', '1e-17', '0.0', '-0.0', '1e-9', fmt(rng, rng.random())]) for _ in range(n)]
     elif kind == 'zeros':
